@@ -196,11 +196,11 @@ func genOpOnKey(r *rand.Rand, key string, pool []string) op {
 // genSharedOp makes an op on a key that other lanes may write in the same round: only kinds
 // whose response tells what happened.
 //
-// expLane: this lane is the only one of the round that touches the expiring keys e* and calls
-// ShiftExpiredTreasures; the other lanes of such a round stay away from e*. (A ShiftExpired that
-// runs while another request saves or deletes an expiring key can deadlock the engine: beacon
-// lock vs record guard, taken in opposite orders. That hang belongs to other properties.)
-// noExp: another lane is the expLane.
+// expLane / noExp: in some rounds only one lane (expLane) touches the expiring keys e*, the others
+// (noExp) stay away from them. ShiftExpiredTreasures is never issued next to other writers: it
+// can deadlock the engine against a save or delete of an expiring key (beacon lock vs record
+// guard, taken in opposite orders) and its cold index build iterates the record map while they
+// write it (fatal error). Both are decided by other properties.
 func genSharedOp(r *rand.Rand, pool []string, expLane, noExp bool) op {
 	x := r.IntN(100)
 	delPool := append(append([]string{}, sharedStr...), sharedDoc...)
@@ -209,7 +209,9 @@ func genSharedOp(r *rand.Rand, pool []string, expLane, noExp bool) op {
 		delPool = append(delPool, sharedExp...)
 		setPool = append(setPool, sharedExp...)
 	}
-	if x >= 86 && x < 92 && !expLane {
+	if x >= 86 && x < 92 {
+		// (no ShiftExpired next to other writers at all: its cold index build iterates the
+		// record map while they write it - a crash that other properties decide)
 		x = r.IntN(86)
 	}
 	switch {
@@ -231,7 +233,11 @@ func genSharedOp(r *rand.Rand, pool []string, expLane, noExp bool) op {
 	case x < 92:
 		return op{K: "shiftExp", D: int64(r.IntN(3))}
 	}
-	return readOp(r, pool)
+	o := readOp(r, pool)
+	if o.K == "index" { // a cold index build next to writers: see above
+		o = op{K: "getAll"}
+	}
+	return o
 }
 
 func gen(c *rig.Check, idx int) *hist {
@@ -336,7 +342,11 @@ func gen(c *rig.Check, idx int) *hist {
 						ops = append(ops, genSharedOp(r, pool, expRound && l == 0, expRound && l != 0))
 					} else {
 						k := pick(r, []string{privStr(l), privInt(l), privDoc(l)})
-						ops = append(ops, genOpOnKey(r, k, pool))
+						o := genOpOnKey(r, k, pool)
+						if o.K == "index" {
+							o = op{K: "count"}
+						}
+						ops = append(ops, o)
 					}
 				}
 			}
